@@ -114,7 +114,7 @@ class IsConstantName:
 @contract(CA + "_has_constant_target", props=["C02"], types=dict(parent=PyNode), returns=Bool)
 class HasConstantTarget:
     def requires(parent):
-        return parent is not None
+        return isinstance(parent, ast.Assign)  # (the function's declared parameter type; callers check it)
 
     def value(parent):
         return has_constant_target(parent)
@@ -181,7 +181,7 @@ class IsStringConstant:
 @contract(CA + "_has_string_operand", props=["C02"], types=dict(binop=PyNode), returns=Bool)
 class HasStringOperand:
     def requires(binop):
-        return binop is not None
+        return isinstance(binop, ast.BinOp)  # (the function's declared parameter type; callers check it)
 
     def value(binop):
         return is_string_constant(binop.left) or is_string_constant(binop.right)
